@@ -333,6 +333,81 @@ def replay_kernel(payload):
     return fake_res
 
 
+# ---- mode strings and the copy constructor ------------------------------------------------------
+
+MODE_ALPHABET = "fdrwxcusFDRWXz"
+
+
+def mode_oracle(mode):
+    """Is the mode string valid? (docstring + _check_mode contract: known flags, each at most once, 'c' at most twice,
+    not both f and d, d not with u or s)"""
+    if any(ch_ not in "fdrwxcusFDRWX" for ch_ in mode):
+        return False
+    for ch_ in set(mode):
+        if mode.count(ch_) > (2 if ch_ == "c" else 1):
+            return False
+    if "f" in mode and "d" in mode:
+        return False
+    if "d" in mode and ("u" in mode or "s" in mode):
+        return False
+    return True
+
+
+def modes(maxlen):
+    from jsonargparse._util import Path
+
+    def harness():
+        n = S.choice("len", maxlen + 1)
+        mode = "".join(MODE_ALPHABET[S.choice(f"c{i}", len(MODE_ALPHABET))] for i in range(n))
+        try:
+            Path._check_mode(mode)
+            ok = True
+        except ValueError:
+            ok = False
+        S.note("accept" if ok else "reject")
+        if ok != mode_oracle(mode):
+            return Fail("mode:wrong-verdict-on-mode-string", mode=mode, accepted=ok)
+        return True
+
+    return harness
+
+
+def _copy_once(mode, spelling, cwd_arg):
+    """Path(Path) keeps spelling, location, cwd; equality with itself and with its spelling."""
+    import jsonargparse._util as U
+
+    fs = SymFS(concrete={p: dict(kind=DIR, r=True, w=True, x=True) for p in CHAIN}, all_exist=True)
+    fs.nodes[CHAIN[0]] = dict(kind=FILE, r=True, w=True, x=True)
+    cwdbox = [CWD, []]
+    real_os = U.os
+    U.os = make_fake_os([fs], cwdbox)
+    try:
+        p = U.Path(spelling, mode=mode, cwd=(CWD if cwd_arg else None))
+        cwdbox[0] = "/w/d1"  # the process moves elsewhere: a copy must not re-resolve
+        q = U.Path(p, mode=mode)
+    finally:
+        U.os = real_os
+    S.note("accept")
+    if q.relative != p.relative or q.absolute != p.absolute or q.cwd != p.cwd or q.mode != mode:
+        return Fail("path:copy-constructor-changes-the-path", spelling=spelling, got=(q.relative, q.absolute, q.cwd))
+    if not (q == p) or not (p == spelling) or (p != q):
+        return Fail("path:equality", spelling=spelling)
+    if p.absolute != os.path.join(CWD, spelling) and not spelling.startswith(("/", "~")):
+        return Fail("path:absolute-is-not-cwd-joined", spelling=spelling, got=p.absolute)
+    return True
+
+
+def copies():
+    def harness():
+        mode = S.pick("mode", ["fr", "fc", "frw", "fcc"])
+        spelling = S.pick("spelling", ["d1/d2/f", "/w/d1/d2/f", "./d1/d2/f"])
+        cwd_arg = S.flag("cwd_arg")
+        S.note("reject")
+        return _copy_once(mode, spelling, cwd_arg)
+
+    return harness
+
+
 # ---- change_to_path_dir -----------------------------------------------------------------
 
 
@@ -566,6 +641,8 @@ def main(rep, tier):
     ]
     jobs = [dict(module="c19", func="kernel", kwargs=dict(maxflags=maxflags, shard=s, nshards=nshards), timeout=300 if tier == "quick" else 1500) for s in range(nshards)]
     jobs.append(dict(module="c19", func="ctx", kwargs=dict(depth=2 if tier == "quick" else 3), timeout=300))
+    jobs.append(dict(module="c19", func="modes", kwargs=dict(maxlen=3 if tier == "quick" else 4), timeout=600))
+    jobs.append(dict(module="c19", func="copies", kwargs={}, timeout=300))
     jobs.append(dict(module="c19", func="api", kwargs={}, timeout=600))
     results = run_jobs(jobs)
     fails = absorb(rep, results, require_tags=("accept", "reject", "raises", "returns", "fails", "parses"))
@@ -585,6 +662,11 @@ def main(rep, tier):
                 rp = dict(module="props.c19", func="replay_kernel", payload=payload)
                 vals = dict(mode=mode, spelling=spelling, target_kind=KIND_NAMES[payload["fs"][CHAIN[0]]["kind"]],
                             has_F="F" in mode)
+            elif s["harness"] in ("modes", "copies"):
+                payload = dict(module="c19", func=s["harness"], kwargs=s["kwargs"], ordered=v.get("__order__", []))
+                r = run_native("ch", "replay_path", payload)
+                rp = dict(module="ch", func="replay_path", payload=payload)
+                vals = dict(info=str(s["info"]))
             elif s["harness"] == "ctx":
                 payload = dict(kinds=s["info"].get("kinds"), raises=s["info"].get("raises"))
                 r = run_native("props.c19", "replay_ctx", payload)
